@@ -181,3 +181,60 @@ def corner_phases(rng, n, style=None):
         ph[0] *= 0.01
         ph[-1] *= 0.01
     return [float(x) for x in ph], style
+
+
+def inner_root_profile(Fc):
+    """roots of 1 - F F~ (as a polynomial in z = w^2) strictly inside the unit disc: (number with zero imaginary part,
+    smallest non-zero |imaginary part|)"""
+    Fa = np.asarray(Fc, dtype=float)
+    poly = -np.convolve(Fa, Fa[::-1])
+    poly[len(Fa) - 1] += 1.0
+    r = np.roots(poly)
+    r = r[np.abs(r) < 1]
+    im = np.abs(r.imag)
+    nz = im[im > 0]
+    return int((im == 0).sum()), (float(nz.min()) if len(nz) else None)
+
+
+def near_collision(rng, n, tries=40):
+    """A real Laurent coefficient vector F (length n+1, 1-norm <= 0.9, extremes >= 1e-3) sitting just on the complex
+    side of a "two real roots of 1 - F F~ collide" event: an inner conjugate root pair with imaginary part between
+    1e-8 and 1e-6, i.e. right at the thresholds root classifications use.  Random sampling never gets there (the window
+    is ~1e-11 wide in a coefficient); it is found by bisection on one coefficient.  Returns None if this start fails."""
+    for _ in range(tries):
+        v = rng.normal(size=n + 1)
+        v = v / np.abs(v).sum() * float(rng.uniform(0.4, 0.85))
+        for i in (0, -1):
+            if abs(v[i]) < 5e-3:
+                v[i] = math.copysign(5e-3 + 0.02 * rng.random(), v[i] or 1.0)
+        j = int(rng.integers(0, n + 1))
+        span = 0.04
+        ts = np.linspace(-span, span, 41)
+        counts = []
+        for t in ts:
+            w = v.copy(); w[j] += t
+            counts.append(inner_root_profile(w)[0])
+        k = next((i for i in range(len(ts) - 1) if counts[i] != counts[i + 1]), None)
+        if k is None:
+            continue
+        lo, hi, clo = float(ts[k]), float(ts[k + 1]), counts[k]
+        for _ in range(80):
+            mid = 0.5 * (lo + hi)
+            if mid == lo or mid == hi:
+                break
+            w = v.copy(); w[j] += mid
+            if inner_root_profile(w)[0] == clo:
+                lo = mid
+            else:
+                hi = mid
+        # walk away from the collision on the side with FEWER real roots until the pair's imaginary part is in the window
+        side = lo if clo < counts[k + 1] else hi
+        sign = -1.0 if side == lo else 1.0
+        target = 10.0 ** float(rng.uniform(-7.8, -6.2))
+        for e in np.arange(-16.5, -9.0, 0.125):
+            t = side + sign * 10.0 ** e
+            w = v.copy(); w[j] += t
+            nreal, im = inner_root_profile(w)
+            if im is not None and target <= im < 8e-7 and np.abs(w).sum() <= 0.9 and abs(w[0]) >= 1e-3 and abs(w[-1]) >= 1e-3:
+                return [float(x) for x in w], im
+    return None
